@@ -178,9 +178,10 @@ class Nest:
         if d[0] == "discr":
             e = strip_refs(d[1])
             if e[0] == "call" and any(e[1].endswith(n) for n in self.NEXT_FNS) and len(e[2]) == 1:
-                it = loopseg.undef_locals(strip_refs(e[2][0]))
+                a0 = strip_refs(e[2][0])
+                it = {a0[1]} if (a0[0] == "ptr" and not a0[2]) else (loopseg.undef_locals(a0) if a0[0] == "opaque" else set())
                 some = loopseg.variants_on_path([cond], lambda x: True, {0: "None", 1: "Some"})
-                if strip_refs(e[2][0])[0] == "opaque" and len(it) == 1 and len(some) == 1:
+                if len(it) == 1 and len(some) == 1:
                     return ("iter", next(iter(it)), some == {"Some"})
             return None
         tr = cond_truth(cond)
@@ -344,28 +345,24 @@ class Nest:
                     raise ShapeNotRecognised("get_evaluation: inner loop counter `%s` is not restarted for every row" % b.lname(l))
                 self.ranges[idx] = (next(iter(los)), test[2])
                 self.norm[me] = ("item", idx)
-        iters = {l for k, l in self.counter.values() if k == "iter"}
-        # nothing in the nest is written behind the back of the segment evaluation: apart from the
-        # iterators' `&mut` for next(), only element writes `a[i] = v` to an integer array, which the
-        # segment evaluation tracks per element (wa/loopseg.py SegExprs)
-        self.elem_arrays = set()
-        for l, loc, kind in loopseg.indirect_writes(b, self.loop):
-            st = b.stmts(loc[0])
-            if kind == "partial" and loc[1] < len(st) and self._elem_ty(l) is not None:
-                pr = st[loc[1]]["place"]["proj"]
-                if len(pr) == 1 and pr[0]["k"] == "index":
-                    self.elem_arrays.add(l)
-                    continue
-            root = alias_of(b, l)[0]
-            if root not in iters:
-                raise ShapeNotRecognised("get_evaluation: `%s` is written through a projection or a borrow at %s; the fold is not recognised" % (
-                    b.lname(root), b.where(loc)))
+        # writes through projections and `&mut` borrows inside the nest are tracked per path by the
+        # segment evaluation (wa/loopseg.py SegExprs); anything it could not attribute makes the path wild
+        for kind, segs in self.segs.items():
+            for blocks, end, env, conds in segs:
+                if ("wild",) in env:
+                    raise ShapeNotRecognised("get_evaluation: %s (%s); the fold is not recognised" % (env[("wild",)][1], b.where(b.term_loc(blocks[-1]))))
 
-    def _elem_ty(self, l):
-        """Element type of a local integer array `[iN; K]`, else None."""
+    def _elem_ty(self, l, key=0):
+        """Type of sub-place `key` of local l: element of an integer array `[iN; K]`, or a struct field."""
         import re
-        m = re.match(r"^\[(\w+); \d+\]$", self.b.local_ty(l))
-        return m.group(1) if m and m.group(1) in INT_RANGES else None
+        ty = self.b.local_ty(l)
+        if isinstance(key, int):
+            m = re.match(r"^\[(\w+); \d+\]$", ty)
+            return m.group(1) if m and m.group(1) in INT_RANGES else None
+        try:
+            return self.f.struct_field_ty(ty, key)
+        except Exception:
+            return None
 
     def cname(self, c):
         """Display name of a cell: a local, or an element of an array local."""
@@ -399,6 +396,7 @@ class Nest:
         rd = b.reaching()
         counters = {l for k, l in self.counter.values()}
         self.accs = []
+        assigned.pop(("wild",), None)
         for c in assigned:
             # an array written element-wise is only understood element by element
             if not isinstance(c, int) and (c[2] is None or c[1] in reads):
@@ -406,14 +404,15 @@ class Nest:
         for l in sorted((c for c in assigned if c in reads), key=str):
             if isinstance(l, int) and (l in counters or loopseg.undef(l) in self.norm):
                 continue       # a loop counter or a per-row function of it (checked in _counters)
-            ty = b.local_ty(l) if isinstance(l, int) else self._elem_ty(l[1])
+            ty = b.local_ty(l) if isinstance(l, int) else self._elem_ty(l[1], l[2])
             if assigned[l] != {"B"} or ty not in ACC_TYPES:
                 raise ShapeNotRecognised("get_evaluation: `%s` carries a value from one iteration to the next but is neither a loop counter nor an accumulator updated once per square" % self.cname(l))
             self.accs.append(l)
         # an accumulator starts at 0 and is written nowhere but in the loop body; what the code after
         # the nest does with it (`mg = -mg`) is part of the tail, which is evaluated path by path
         def zero(e):
-            return e == ("const", 0) or (e[0] == "repeat" and e[1] == ("const", 0)) or (e[0] == "agg" and e[1] == "array" and all(x == ("const", 0) for x in e[3]))
+            e = e[2] if e[0] == "named" else e
+            return e == ("const", 0) or (e[0] == "repeat" and e[1] == ("const", 0)) or (e[0] == "agg" and e[1] != "closure" and bool(e[3]) and all(x == ("const", 0) for x in e[3]))
         for l in self.accs:
             arr = not isinstance(l, int)
             for loc, kind in rd.all_sites(l[1] if arr else l):
@@ -716,7 +715,7 @@ class Fold:
             for blocks, dec in enum_paths(b, self.ex, start=n1.exit, stop={n2.outer}):
                 if blocks[-1] != n2.outer:
                     raise ShapeNotRecognised("get_evaluation: code between two board walks can leave the function")
-                env, conds = eval_path(b, blocks[:-1])
+                env, conds = loopseg.eval_segment(b, blocks[:-1], blocks[-1])
                 for v in env.values():
                     self.other_reads |= loopseg.undef_cells(v)
                 for c in conds:
@@ -738,7 +737,9 @@ class Fold:
         for blocks, dec in enum_paths(b, self.ex, start=self.final_exit):
             if b.term(blocks[-1])["k"] != "return":
                 continue
-            env, conds = eval_path(b, blocks)
+            env, conds = loopseg.eval_segment(b, blocks, None)
+            if ("wild",) in env:
+                raise ShapeNotRecognised("get_evaluation: after the board walk, %s" % env[("wild",)][1])
             res = env.get(0)
             if res is not None:
                 self.other_reads |= loopseg.undef_cells(res)
